@@ -3,6 +3,15 @@
 import json, glob, re, os
 V = os.path.dirname(os.path.dirname(os.path.abspath(__file__)))
 rows = []
+try:
+    rates = json.load(open(V + "/seeded/rates.json"))
+except Exception:
+    rates = {}
+def rate(mid):
+    r = rates.get(mid)
+    if not r:
+        return ""
+    return "; ".join("%s %d/%d" % (s, v["fails"], v["runs"]) for s, v in sorted(r.items()))
 for d in sorted(glob.glob(V + "/seeded/*")):
     try:
         m = json.load(open(d + "/meta.json"))
@@ -10,8 +19,8 @@ for d in sorted(glob.glob(V + "/seeded/*")):
         continue
     def c(s):
         return str(s).replace("|", "\\|").replace("\n", " ")
-    rows.append("| %s | %s | %s | %s | %s |" % (m["id"], c(m["change"]), c(m["needs_to_manifest"]), c(m["caught_by_checks"]), c(m.get("note", ""))))
-tab = "| id | change (applied to a scratch copy of /repo only) | needs, to manifest | caught by (quick tier, default seed) | note |\n|---|---|---|---|---|\n" + "\n".join(rows) + "\n"
+    rows.append("| %s | %s | %s | %s | %s | %s |" % (m["id"], c(m["change"]), c(m["needs_to_manifest"]), c(m["caught_by_checks"]), rate(m["id"]), c(m.get("note", ""))))
+tab = "| id | change (applied to a scratch copy of /repo only) | needs, to manifest | caught by (quick tier, default seed) | failing runs / runs of the property's scenario (tools/mutant_rates.py) | note |\n|---|---|---|---|---|---|\n" + "\n".join(rows) + "\n"
 p = V + "/DESIGN.md"
 s = open(p).read()
 s2 = re.sub(r"(<!-- SEEDED-TABLE-BEGIN -->\n).*?(<!-- SEEDED-TABLE-END -->)", lambda mo: mo.group(1) + tab + mo.group(2), s, flags=re.S)
